@@ -124,6 +124,14 @@ fn matrix_sites() -> Vec<MatrixSite> {
         v.push(MatrixSite { src: s("{{ U|default('d') }}"), class: "default", ok: [true; 4], out: "d" });
         v.push(MatrixSite { src: s("{{ U|d('d') }}"), class: "default", ok: [true; 4], out: "d" });
         v.push(MatrixSite { src: s("{{ U|default }}|"), class: "default", ok: [true; 4], out: "|" });
+        // every argument form of the three sites that never fail
+        for (form, out) in [
+            ("{{ U|default('d', true) }}", "d"), ("{{ U|default('d', false) }}", "d"), ("{{ U|d('d', 1) }}", "d"),
+            ("{{ U|default(U, true)|default('e') }}", "e"), ("{{ (U is defined) and (U is not undefined) }}", "False"), ("{{ U is defined or U is undefined }}", "True"), ("{{ [U is defined, U is undefined]|join }}", "FalseTrue"),
+            ("{% if U is defined %}a{% else %}b{% endif %}", "b"), ("{{ 'a' if U is defined else 'b' }}", "b"), ("{% for i in [1] if U is undefined %}x{% endfor %}", "x"),
+        ] {
+            v.push(MatrixSite { src: s(form), class: "never_failing_sites", ok: [true; 4], out });
+        }
         v.push(MatrixSite { src: s("{% set q = U %}{{ q is defined }}"), class: "assign_then_is_defined", ok: [true; 4], out: "False" });
         v.push(MatrixSite { src: s("{% if U is defined %}a{% else %}b{% endif %}"), class: "is_defined", ok: [true; 4], out: "b" });
     }
@@ -356,7 +364,7 @@ pub fn main(args: Args) -> i32 {
             level: "exploration",
             tier: args.tier,
             seed: args.seed,
-            rule: format!("(1) matrix: 25 direct syntactic sites (incl. re-entry of a recursive loop) x 4 undefined operand spellings x 4 modes against the documented table (error kind UndefinedError, exact output); (2) site table generated from the registry in defaults.rs: every built-in filter x 17 argument forms, every test x 8, every global function x 6, 62 operator/statement forms, each with 2 undefined operand spellings x 2 contexts x 4 modes, monotonicity oracle; (3) every {} program of the depth-2 space of G x 3 contexts (two with missing keys) x 4 modes{}; (4) 5 multi-template families. distinct non-trivial = (source, context) pairs whose outcome differs between modes", if stride == 1 { "".to_string() } else { format!("{}rd", stride) }, if args.tier == Tier::Thorough { " plus every 53rd depth-3 program" } else { "" }),
+            rule: format!("(1) matrix: 35 direct syntactic sites (incl. every argument form of default / is defined / is undefined) (incl. re-entry of a recursive loop) x 4 undefined operand spellings x 4 modes against the documented table (error kind UndefinedError, exact output); (2) site table generated from the registry in defaults.rs: every built-in filter x 17 argument forms, every test x 8, every global function x 6, 62 operator/statement forms, each with 2 undefined operand spellings x 2 contexts x 4 modes, monotonicity oracle; (3) every {} program of the depth-2 space of G x 3 contexts (two with missing keys) x 4 modes{}; (4) 5 multi-template families. distinct non-trivial = (source, context) pairs whose outcome differs between modes", if stride == 1 { "".to_string() } else { format!("{}rd", stride) }, if args.tier == Tier::Thorough { " plus every 53rd depth-3 program" } else { "" }),
             exhaustive: true,
             bound: json!({"modes": ["Strict", "SemiStrict", "Lenient", "Chainable"]}),
             assumptions: vec!["monotonicity compares whole-render outputs; error kinds are only checked on the matrix sites".into()],
